@@ -28,7 +28,7 @@ SCOPES = [config.TagScope.DEFAULT, config.TagScope.GLOBAL, config.TagScope.BRANC
 
 
 def _cfg(commit: bool, tag: bool, push: bool, pre: str = "", post: str = "", scope=config.TagScope.DEFAULT,
-         cmsg="bump {old_version} -> {new_version}", tmsg="{new_version}"):
+         cmsg="bump OLD api {old_version} -> {new_version} (NEW)", tmsg="NEW tag {new_version}"):
     return config.Config(
         current_version="1.2.3", version_pattern="MAJOR.MINOR.PATCH", pep440_version="1.2.3",
         commit_message=cmsg, tag_message=tmsg, tag_scope=scope,
@@ -115,11 +115,12 @@ class _RecAPI:
         self._step(("push_tag", tag_name))
 
 
-def commit_sequence(commit: bool, tag: bool, push: bool, has_pre: bool, has_post: bool, fail_at: int) -> bool:
+def commit_sequence(commit: bool, tag: bool, push: bool, has_pre: bool, has_post: bool, fail_at: int, empty_tag_msg: bool) -> bool:
     """
     pre: -1 <= fail_at <= 8
     post: _
     """
+    tag_msg = "" if empty_tag_msg else "the tag message"
     log: typ.List[tuple] = []
     cfg = _cfg(commit, tag, push, "pre.sh" if has_pre else "", "post.sh" if has_post else "")
     api = _RecAPI(log, fail_at)
@@ -139,7 +140,7 @@ def commit_sequence(commit: bool, tag: bool, push: bool, has_pre: bool, has_post
         if has_post:
             want.append(("hook", "post.sh", "1.2.3", "1.2.4"))
         if tag:
-            want.append(("tag", "1.2.4", "the tag message"))
+            want.append(("tag", "1.2.4", tag_msg))
         if push:
             want.append(("push_tag", "1.2.4") if tag else ("push",))
     saved = hooks.run
@@ -147,7 +148,7 @@ def commit_sequence(commit: bool, tag: bool, push: bool, has_pre: bool, has_post
     failed = False
     try:
         try:
-            vcs.commit(cfg, api, ["a.txt", "b.txt"], "1.2.4", "the message", "the tag message")
+            vcs.commit(cfg, api, ["a.txt", "b.txt"], "1.2.4", "the message", tag_msg)
         except (SystemExit, vcs.sp.CalledProcessError):
             failed = True
     finally:
@@ -260,8 +261,10 @@ def update_skeleton(dry: bool, allow_dirty: bool, ignore_vcs_tag: bool, fetch: b
     cfg_w = w[1]
     if (cfg_w.commit, cfg_w.tag, cfg_w.push) != opts or cfg_w.current_version != old or cfg_w.tag_scope != SCOPES[scope]:
         return False
-    cmsg = f"release {candidate} (was {old})" if cli_msg else f"bump {old} -> {candidate}"
-    return w[2] == candidate and w[3] == cmsg and w[4] == candidate and w[5] == allow_dirty
+    # configured templates are used as written (only the documented {placeholders} are substituted); the OLD/NEW shorthand is a
+    # feature of the command line options
+    cmsg = f"release {candidate} (was {old})" if cli_msg else f"bump OLD api {old} -> {candidate} (NEW)"
+    return w[2] == candidate and w[3] == cmsg and w[4] == "NEW tag " + candidate and w[5] == allow_dirty
 
 
 def twin_update_never_writes(dry: bool, has_candidate: bool, gate_ok: bool) -> bool:
